@@ -319,6 +319,16 @@ class Flow:
                     if ok:
                         live.append(d)
                 live = flow._drop_overwritten(live, lambda t, w: decide(t, w, self.depth - 1))
+                if len(live) == 2 and "param" not in live:
+                    # the two arms of one undecided `if` each define the name: the value is the conditional expression
+                    pa, pb = parent(live[0]), parent(live[1])
+                    if pa is pb and isinstance(pa, ast.If) and len(pa.body) == 1 and len(pa.orelse) == 1 \
+                            and {id(pa.body[0]), id(pa.orelse[0])} == {id(live[0]), id(live[1])}:
+                        va, vb = flow._def_value(pa.body[0], n.id), flow._def_value(pa.orelse[0], n.id)
+                        if va is not None and vb is not None:
+                            return ast.copy_location(ast.IfExp(test=T(pa, self.depth - 1).visit(clone(pa.test)),
+                                                               body=T(pa.body[0], self.depth - 1).visit(clone(va)),
+                                                               orelse=T(pa.orelse[0], self.depth - 1).visit(clone(vb))), n)
                 if len(live) != 1 or live[0] == "param":
                     return n
                 value = flow._def_value(live[0], n.id)
